@@ -226,6 +226,17 @@ PROPS["C08"] = {
     ],
 }
 
+PROPS["C19"] = {
+    "technique": "differential property testing (rapid): generated epochs x slot ranges x filters, gRPC stream output compared with a naive scan of the generator's ground truth, with and without the address index",
+    "level_text": "1..3 generated epochs (adjacent or with gaps, skipped slots, vote / non-vote, failed / successful, legacy / v0 with address-table loaded accounts, blocks near epoch edges) are loaded once without and once with address indexes. StreamBlocks and StreamTransactions are called in-process with generated ranges (inside an epoch, starting or ending on skipped slots, across two epochs, across a missing epoch, end omitted) and filters over a 6-account universe plus an unmentioned account (vote/failed absent/true/false, include/exclude/required subsets, no filter). The streamed sequence must equal the reference scan: every archived block of the range in ascending slot order (restricted by account_include), every archived transaction satisfying the filter in ascending slot and position order with byte-identical payloads, and the same set of transactions with and without the address index. Exploration level.",
+    "level_note": "All generated transactions carry metadata (the failed flag is undefined otherwise); fewer than 100 transactions per account and range (the indexed path asks the address index for 100 entries per account). Epochs without recorded positions are compared per slot as sets. Messages carrying no transaction (placeholder when nothing matched) are ignored.",
+    "rule": ("rapid draws 1..3 epoch specs and 4..14 queries; non-trivial = StreamTransactions query whose range contains >=1 skipped slot and >=2 blocks and whose filter both accepts and rejects a transaction of the range; distinct by case hash"),
+    "assumptions": ["reference predicate: a transaction mentions an account if it is among its static keys or its loaded addresses"],
+    "units": [
+        {"name": "streams", "pkg": ".", "run": "TestVfC19", "checks": T(40, 1600), "shards": T(8, 16), "timeout": T(900, 3000), "transforms": GSFA_FASTPOLL, "env": ROOT_ENV, "shrinktime": "20s"},
+    ],
+}
+
 
 # properties not (yet) claimed by a check; kept current by hand
 NOT_APPLICABLE = [
